@@ -706,7 +706,9 @@ func verifC18WellFormed(b []byte) bool {
 		// inside an unknown group the generated skip functions look at wire types only (nested field numbers, incl. 0,
 		// and the number of the end-group tag are not validated): such bytes are skipped like any unknown group and
 		// belong to the unknown-field class, so they do not count as malformed here
-		if !ok || (depth == 0 && (tag>>3 == 0 || tag>>3 > 1<<29-1)) {
+		// field number as the generated decoders see it: int32(wire >> 3), accepted when > 0 (high bits of an over-long
+		// tag varint are truncated, so a tag like a2a2a2a2a230 is a well-formed unknown field for them)
+		if !ok || (depth == 0 && int32(tag>>3) <= 0) {
 			return false
 		}
 		i = j
